@@ -380,18 +380,18 @@ Proof.
   intros Hf. unfold adc.
   destruct g as [v|l|a|c|]; cbn [gain_fits] in Hf; try contradiction; cbn [gdims].
   - eexists. split; [reflexivity|]. cbn [nr nc adc_frame]. repeat split. intros i j Hi Hj.
-    rewrite adc_frame_get, gain_model_polyval, !bidx_in by assumption.
+    rewrite adc_frame_get, gain_model_polyval, (bidx_in (nr img)), (bidx_in (nc img)) by assumption.
     rewrite (gcoef_poly (G0 v)) by discriminate. reflexivity.
   - eexists. split; [reflexivity|]. cbn [nr nc adc_frame]. repeat split. intros i j Hi Hj.
-    rewrite adc_frame_get, gain_model_polyval, !bidx_in by assumption.
+    rewrite adc_frame_get, gain_model_polyval, (bidx_in (nr img)), (bidx_in (nc img)) by assumption.
     rewrite (gcoef_poly (G1 l)) by discriminate. reflexivity.
   - destruct Hf as (Hr & Hc). rewrite Hr, Hc, !bdim_same. cbn [rbind]. eexists. split; [reflexivity|].
     cbn [nr nc adc_frame]. repeat split; try congruence. intros i j Hi Hj.
-    rewrite adc_frame_get, gain_model_polyval. rewrite <- Hr, <- Hc, !bidx_in by assumption.
+    rewrite adc_frame_get, gain_model_polyval, !bidx_in by assumption.
     rewrite (gcoef_poly (G2 a)) by discriminate. reflexivity.
   - destruct Hf as (Hr & Hc & Hk). rewrite Hr, Hc, !bdim_same. cbn [rbind]. eexists. split; [reflexivity|].
     cbn [nr nc adc_frame]. repeat split; try congruence. intros i j Hi Hj.
-    rewrite adc_frame_get, gain_model_polyval. rewrite <- Hr, <- Hc, !bidx_in by assumption.
+    rewrite adc_frame_get, gain_model_polyval, !bidx_in by assumption.
     rewrite (gcoef_poly (G3 c)) by discriminate. reflexivity.
 Qed.
 
@@ -416,15 +416,19 @@ Proof. reflexivity. Qed.
 Lemma bdim_err a b : a <> b -> a <> 1%Z -> b <> 1%Z -> bdim a b = Err ValueError.
 Proof. intros. unfold bdim. destruct (a =? b)%Z eqn:E1; [lia|]. destruct (a =? 1)%Z eqn:E2; [lia|].
   destruct (b =? 1)%Z eqn:E3; [lia|]. reflexivity. Qed.
+Lemma bdim_err_kind a b e : bdim a b = Err e -> e = ValueError.
+Proof. unfold bdim. destruct (a =? b)%Z; [discriminate|]. destruct (a =? 1)%Z; [discriminate|].
+  destruct (b =? 1)%Z; [discriminate|]. congruence. Qed.
 Lemma adc_gain_shape_mismatch img g sat warn gr gc : gdims g = Some (gr, gc) ->
   (nr img <> gr /\ nr img <> 1 /\ gr <> 1)%Z \/ (nc img <> gc /\ nc img <> 1 /\ gc <> 1)%Z ->
   adc img g sat warn = Err ValueError.
 Proof.
-  intros Hd H. unfold adc. destruct g as [v|l|a|c|]; cbn [gdims] in Hd; try discriminate; rewrite Hd.
+  intros Hd H. unfold adc.
+  destruct g as [v|l|a|c|]; cbn [gdims] in Hd; try discriminate; injection Hd as <- <-; cbn [gdims].
   all: destruct H as [(A & B & C)|(A & B & C)].
-  all: try (rewrite (bdim_err (nr img) gr) by assumption; reflexivity).
-  all: destruct (bdim (nr img) gr); cbn [rbind]; [|reflexivity].
-  all: rewrite (bdim_err (nc img) gc) by assumption; reflexivity.
+  all: try (rewrite (bdim_err (nr img) _) by assumption; reflexivity).
+  all: destruct (bdim (nr img) _) eqn:E; cbn [rbind]; [|now rewrite (bdim_err_kind _ _ _ E)].
+  all: rewrite (bdim_err (nc img) _) by assumption; reflexivity.
 Qed.
 
 (* ---- monotonicity: floor . poly . min is non-decreasing for non-negative gain curves ---- *)
@@ -480,7 +484,7 @@ Proof.
 Qed.
 
 (* the frames of two inputs ordered pixel by pixel are ordered pixel by pixel *)
-Lemma adc_monotone img1 img2 g sat warn1 warn2 :
+Lemma adc_monotone (img1 img2 : arr QcS) g sat warn1 warn2 :
   gain_fits g (nr img1) (nc img1) -> sat <> Some 0 -> nr img2 = nr img1 -> nc img2 = nc img1 ->
   (forall i j, (0 <= i < nr img1)%Z -> (0 <= j < nc img1)%Z ->
      Forall (fun c => 0 <= c) (gain_poly g i j) /\ 0 <= get img1 i j /\ get img1 i j <= get img2 i j) ->
@@ -502,4 +506,23 @@ Lemma adc_zero_capacity_refuted :
     get dn 0%Z 0%Z = 5%Z /\ dn_spec (gain_poly (G0 1) 0 0) (Some 0) (get img 0%Z 0%Z) = 0%Z.
 Proof.
   exists (@mkArr QcS 1 1 (fun _ _ => Q2Qc 5)). eexists. split; [reflexivity|]. split; vm_compute; reflexivity.
+Qed.
+
+Local Open Scope Z_scope.
+Lemma format_bayer_spec (l : list Z) (k : Z) : forallb chan_ok l = true -> 0 <= k -> Z.of_nat (length l) = k * k ->
+  exists p, format_bayer l = Ok p /\ pk p = k /\
+    forall i j, pch p i j = nth (Z.to_nat (i * k + j)) l 0.
+Proof.
+  intros H Hk Hl. destruct (format_bayer_complete l k H Hk Hl) as (p & Hp & <-).
+  exists p. split; [exact Hp|]. split; [reflexivity|]. apply (format_bayer_ok l p Hp).
+Qed.
+Lemma format_bayer_rejects (l : list Z) :
+  forallb chan_ok l = false \/ (forall k, Z.of_nat (length l) <> k * k) -> format_bayer l = Err ValueError.
+Proof. intros [H|H]; [now apply format_bayer_bad_char | now apply format_bayer_not_square]. Qed.
+Lemma adc_rejects (img : arr QcS) (g : gainrep) (sat : option Qc) (warn : bool) :
+  g = GN \/ (exists gr gc, gdims g = Some (gr, gc) /\
+             ((nr img <> gr /\ nr img <> 1 /\ gr <> 1) \/ (nc img <> gc /\ nc img <> 1 /\ gc <> 1))) ->
+  adc img g sat warn = Err ValueError.
+Proof.
+  intros [->|(gr & gc & Hd & H)]; [apply adc_bad_ndim | now apply (adc_gain_shape_mismatch img g sat warn gr gc)].
 Qed.
